@@ -82,6 +82,30 @@ Definition derive_stmt (inh : option bool) (k : klass) (o : op) (cname : option 
       else Raise TypeError
   end.
 
+(* `_enable_undefined_value` as the source sees it ([eu]: its own setting or an inherited one, None when no class
+   of its MRO has the attribute): _init_class_dict copies it next to `_ignore_none`, so the class statement of the
+   derived class sets the attribute exactly when the source has it.  ([klass] does not record non-field
+   attributes; [define] only runs its two guards over them.) *)
+Definition n_enable_undefined : pystr := s2p "_enable_undefined_value".
+
+Definition undefined_attrs (eu : option bool) : list (pystr * uval) :=
+  match eu with Some _ => [(n_enable_undefined, UBool)] | None => [] end.
+
+Definition with_undefined (eu : option bool) (s : classstmt) : classstmt :=
+  {| s_name := s_name s; s_bases := s_bases s; s_members := s_members s;
+     s_required := s_required s; s_optional := s_optional s; s_additional := s_additional s;
+     s_ignore_none := s_ignore_none s; s_attrs := undefined_attrs eu ++ s_attrs s; s_keys_of := s_keys_of s |}.
+
+Definition derived_stmt_eu (name : pystr) (ign eu : option bool) (ms : members) (required : list pystr) : classstmt :=
+  with_undefined eu (derived_stmt name ign ms required).
+
+(* the class statement an operator hands to `type(...)`: [derive_stmt] with the carried `_enable_undefined_value` *)
+Definition derive_stmt_eu (inh eu : option bool) (k : klass) (o : op) (cname : option pystr) : res classstmt :=
+  s <- derive_stmt inh k o cname ;; Ok (with_undefined eu s).
+
+(* the value the derived class has for the attribute: the source's, True or False (absent stays absent) *)
+Definition carried_undefined (eu : option bool) : option bool := eu.
+
 (* ------------------------------------------------------------------ the documented sets (spec) *)
 
 Definition member_has_default (ms : members) (n : pystr) : bool :=
